@@ -218,8 +218,16 @@ func bucket(n int) string {
 		return "3-4"
 	case n <= 8:
 		return "5-8"
+	case n <= 14:
+		return "9+"
+	case n <= 32:
+		return "15-32"
+	case n <= 64:
+		return "33-64"
+	case n <= 128:
+		return "65-128"
 	}
-	return "9+"
+	return "129+"
 }
 
 // ---- rendered-PDF path -----------------------------------------------------------------
@@ -269,7 +277,41 @@ func textLines(s string) []string {
 }
 
 func pdfCase(c *hx.Ctx, d Doc, subset []int, excl string, r *hx.Rng, emitOps bool) {
-	ci := caseInfo{Mode: "pdf", Doc: d, Subset: subset, Excl: excl}
+	pdfCaseInfo(c, caseInfo{Mode: "pdf", Doc: d, Subset: subset, Excl: excl}, r, emitOps)
+}
+
+// withPages requests the 0-based pages ks: Pages(k+1, ...) or, for a contiguous run asked
+// for as a range, PageRange(first+1, last+1).
+func withPages(e *tabula.Extractor, ks []int, asRange bool) *tabula.Extractor {
+	if asRange && len(ks) > 0 {
+		return e.PageRange(ks[0]+1, ks[len(ks)-1]+1)
+	}
+	nums := make([]int, len(ks))
+	for i, k := range ks {
+		nums[i] = k + 1
+	}
+	return e.Pages(nums...)
+}
+
+func contiguous(ks []int) bool {
+	for i := 1; i < len(ks); i++ {
+		if ks[i] != ks[i-1]+1 {
+			return false
+		}
+	}
+	return len(ks) > 0
+}
+
+func fragKey(t string, x, y float64) string { return fmt.Sprintf("%s@%v,%v", t, x, y) }
+
+// pdfCaseInfo runs one rendered-PDF case. With ci.Probe (long documents) only the probed
+// pages are requested one by one; every page is still covered by the whole-document
+// request and, when it is in the subset, by the subset request.
+func pdfCaseInfo(c *hx.Ctx, ci caseInfo, r *hx.Rng, emitOps bool) {
+	d, subset, excl := ci.Doc, ci.Subset, ci.Excl
+	ci.Range = ci.Range && contiguous(subset)
+	probed := probedSet(ci)
+	sampled := len(ci.Probe) > 0
 	if floatAmbiguous(c, d) {
 		return
 	}
@@ -286,6 +328,24 @@ func pdfCase(c *hx.Ctx, d Doc, subset []int, excl string, r *hx.Rng, emitOps boo
 	var pan string
 	okRaw := true
 	pan = hx.Safe(func() {
+		if sampled {
+			// one request for the whole document, cut at the written fragment counts
+			fr, _, err := tabula.Open(fn).Fragments()
+			total := 0
+			for _, p := range d.Pages {
+				total += len(p.F)
+			}
+			if err != nil || len(fr) != total {
+				okRaw = false
+				return
+			}
+			at := 0
+			for i, p := range d.Pages {
+				raw[i] = layout.PageFragments{PageIndex: i, PageHeight: float64(p.H), PageWidth: float64(p.W), Fragments: fr[at : at+len(p.F) : at+len(p.F)]}
+				at += len(p.F)
+			}
+			return
+		}
 		for i := 0; i < n; i++ {
 			fr, _, err := tabula.Open(fn).Pages(i + 1).Fragments()
 			if err != nil {
@@ -326,6 +386,9 @@ func pdfCase(c *hx.Ctx, d Doc, subset []int, excl string, r *hx.Rng, emitOps boo
 	narrow := false
 	pan = hx.Safe(func() {
 		for i := 0; i < n; i++ {
+			if !probed[i] {
+				continue
+			}
 			base, err := tabula.Open(fn).Pages(i + 1).Lines()
 			if err != nil {
 				okRaw = false
@@ -376,11 +439,15 @@ func pdfCase(c *hx.Ctx, d Doc, subset []int, excl string, r *hx.Rng, emitOps boo
 		c.Count("pdf:line-detector-drops-fragments(skipped)")
 		return
 	}
-	if emitOps {
+	if emitOps && !sampled {
 		c.Op(opLine("c11.hf", raw), keptLine(kept, isSub))
 	}
 	checkDoc(c, ci, kept, isSub)
 	c.Count("pdf:excl=" + excl)
+	c.Count("pdf:pages:" + bucket(n))
+	if sampled {
+		c.Count("pdf:long(sampled-pages+whole-document)")
+	}
 	for _, t := range strings.Split(d.Tags, ",") {
 		switch t {
 		case "mixed-sizes", "charlevel-pages", "cover", "chapter-opener":
@@ -390,8 +457,11 @@ func pdfCase(c *hx.Ctx, d Doc, subset []int, excl string, r *hx.Rng, emitOps boo
 
 	// Text(): the filtered text consists of exactly the surviving fragments' texts
 	for i := 0; i < n; i++ {
-		if !isSub[i] {
+		if !probed[i] || !isSub[i] {
 			continue
+		}
+		if sampled && i != ci.Probe[0] && i != ci.Probe[len(ci.Probe)-1] {
+			continue // long documents: Text() page by page on the first and the last probed page, and on the whole document
 		}
 		var txt string
 		var err error
@@ -420,8 +490,8 @@ func pdfCase(c *hx.Ctx, d Doc, subset []int, excl string, r *hx.Rng, emitOps boo
 	}
 
 	// page subsets requested together with exclusion: detection must still use all pages
+	_, allKept, allSub, _ := runLayout(raw)
 	if len(subset) > 0 {
-		_, allKept, allSub, _ := runLayout(raw)
 		var want []string
 		okAll := true
 		for _, k := range subset {
@@ -443,7 +513,7 @@ func pdfCase(c *hx.Ctx, d Doc, subset []int, excl string, r *hx.Rng, emitOps boo
 			var err error
 			pan = hx.Safe(func() {
 				var ls []layout.Line
-				ls, err = withExcl(tabula.Open(fn).Pages(nums...), excl).Lines()
+				ls, err = withExcl(withPages(tabula.Open(fn), subset, ci.Range), excl).Lines()
 				for _, l := range ls {
 					for _, f := range l.Fragments {
 						got = append(got, fmt.Sprintf("%s@%v,%v", f.Text, f.X, f.Y))
@@ -454,13 +524,24 @@ func pdfCase(c *hx.Ctx, d Doc, subset []int, excl string, r *hx.Rng, emitOps boo
 				sort.Strings(got)
 				sort.Strings(want)
 				c.Check("C11/subset-detection", strings.Join(got, "\n") == strings.Join(want, "\n"), ci, func() string {
-					return fmt.Sprintf("Pages(%v) with exclusion kept %q; filtering those pages with regions detected on all %d pages keeps %q",
-						nums, got, n, want)
+					how := fmt.Sprintf("Pages(%v)", nums)
+					if ci.Range {
+						how = fmt.Sprintf("PageRange(%d, %d)", nums[0], nums[len(nums)-1])
+					}
+					return fmt.Sprintf("%s with exclusion kept %q; filtering those pages with regions detected on all %d pages keeps %q",
+						how, got, n, want)
 				})
 				c.Count("pdf:subset")
+				if ci.Range {
+					c.Count("pdf:subset-as-PageRange")
+				}
+				if nums[len(nums)-1] > 14 {
+					c.Count("pdf:subset-reaches-beyond-page-14")
+				}
 			}
 		}
 	}
+	wholeDocument(c, ci, fn, raw, allKept, allSub)
 	b, _ := json.Marshal(ci)
 	c.Case("pdf"+string(b), true)
 }
@@ -685,7 +766,10 @@ func Run(c *hx.Ctx) {
 		"a unique title / imprint in the band), with character-level pages chosen per page (only the openers, all but the openers, some, all). Each document goes through layout.NewHeaderFooterDetector().Detect(pages).FilterFragments(...) once on fresh copies and then, as a caller that keeps its own slices " +
 		"(all pages in one backing array, deep copy taken first), through a call sequence (same page twice, Detect-Filter-Detect-Filter, pages in other orders, one shared scratch buffer, " +
 		"per-page AnalyzeWithHeaderFooterFiltering, random mixes) after each step of which the input must equal the copy and every result the single-call result; and, rendered by an independent " +
-		"PDF writer, through tabula.Open(f).Pages(S).ExcludeHeaders()/ExcludeFooters()/ExcludeHeadersAndFooters().Lines()/Text(). Non-trivial = at least one fragment was removed."
+		"PDF writer, through tabula.Open(f).Pages(S).ExcludeHeaders()/ExcludeFooters()/ExcludeHeadersAndFooters().Lines()/Text(), page by page, for the subset S and for the whole document (no Pages call). " +
+		"Long documents: the same generator with 15 to 140 (thorough: 520) pages, page counts drawn around 16/20/25/32/50/64/100/128/200/256/…, directly and as PDFs requested as a whole, as Pages(S), " +
+		"as PageRange(a, b) (random half, sparse, contiguous run, tail only, one late page) and page by page on a sample of pages (first, last, one of the last quarter, two random). " +
+		"Non-trivial = at least one fragment was removed."
 	for wi, d := range []Doc{witnessB20(), witnessEmbeddedNumber(), witnessCharLevel(), witnessCover(), witnessMixedSizes()} {
 		directCase(c, d, true)
 		script, kind := genScript(c.Rng.Fork(uint64(3_000_000+wi)), len(d.Pages))
@@ -746,7 +830,35 @@ func Run(c *hx.Ctx) {
 		excl := hx.Pick(r, []string{"h", "f", "hf"})
 		pdfCase(c, d, subset, excl, r, true)
 	}
+	longDocs(c)
 	os.RemoveAll(filepath.Join(c.OutDir, "pdf"))
+}
+
+// longDocs: documents of 15 to several hundred pages (long.go), directly through the
+// detector (a few of them also answered by the model) and, rendered, through the public
+// API: whole document, Pages(S) / PageRange(a, b), and page by page on a sample of pages.
+func longDocs(c *hx.Ctx) {
+	maxPages := 140
+	if c.Thorough() {
+		maxPages = 520
+	}
+	nl := c.N(60, 500)
+	for i := 0; i < nl; i++ {
+		r := c.Rng.Fork(uint64(7_000_000 + i))
+		d := genDoc(r, genOpts{long: true, maxPages: maxPages, mix: i%3 == 2})
+		// the model answers for the shorter ones only (its detection is quadratic in the page count)
+		directCase(c, d, len(d.Pages) <= 40 && i%4 == 0)
+	}
+	np := c.N(30, 300)
+	for i := 0; i < np; i++ {
+		r := c.Rng.Fork(uint64(8_000_000 + i))
+		d := genDoc(r, genOpts{pdfSafe: true, long: true, maxPages: maxPages, mix: i%3 == 2})
+		n := len(d.Pages)
+		x := r.Fork(0x10F7)
+		subset, asRange := longSubset(x, n)
+		ci := caseInfo{Mode: "pdf", Doc: d, Subset: subset, Range: asRange, Excl: hx.Pick(x, []string{"h", "f", "hf"}), Probe: probePages(x, n)}
+		pdfCaseInfo(c, ci, r, true)
+	}
 }
 
 func Replay(c *hx.Ctx, kase map[string]interface{}) {
@@ -758,7 +870,7 @@ func Replay(c *hx.Ctx, kase map[string]interface{}) {
 	}
 	switch ci.Mode {
 	case "pdf":
-		pdfCase(c, ci.Doc, ci.Subset, ci.Excl, nil, false)
+		pdfCaseInfo(c, ci, nil, false)
 	case "seq":
 		seqCase(c, ci.Doc, ci.Script, "replay", false)
 	case "docx":
